@@ -677,7 +677,9 @@ package proxy
 // incarnation's channel and registration time.
 //@ contract (*proxyStreamSender).Run
 //@   props C08 C04
+//@   checkgo
 //@   requires s.shardManager != nil
+//@   requires s.lastTask == 0 && s.lastHigh == 0
 //@   callpre RegisterShard: @channel_registered_first: s.chanRegistered && $clientShardID == s.targetShardID
 //@   callpre RemoveRemoteSendChan: @own_channel: $expectedChan == s.sendMsgChan && $shardID == s.targetShardID
 //@   callpre UnregisterShard: @own_registration: $expectedRegisteredAt == registeredAt && $clientShardID == s.targetShardID
